@@ -41,7 +41,8 @@ type sOp struct {
 	Dur    time.Duration
 	Target string
 	Method string
-	Abort  int // 0 no, 1 drop the connection after half of the request, 2 after the request, 3 after the response head
+	Range  [2]int // Range: bytes=a-b (when b > 0)
+	Abort  int    // 0 no, 1 drop the connection after half of the request, 2 after the request, 3 after the response head
 }
 
 // yconn makes every blocking network operation of a client task a scheduling point.
@@ -71,13 +72,17 @@ func dialSim(port int) (net.Conn, error) {
 }
 
 // httpOnce performs one request on a fresh connection and describes the outcome.
-func httpOnce(port int, method, target string, abort int) string {
+func httpOnce(port int, method, target string, abort int, rng ...int) string {
 	conn, err := dialSim(port)
 	if err != nil {
 		return "refused"
 	}
 	defer conn.Close()
-	req := fmt.Sprintf("%s %s HTTP/1.1\r\nHost: localhost:%d\r\nConnection: close\r\nOrigin: http://example.com\r\n\r\n", method, target, port)
+	rangeHdr := ""
+	if len(rng) == 2 && rng[1] > 0 {
+		rangeHdr = fmt.Sprintf("Range: bytes=%d-%d\r\n", rng[0], rng[1])
+	}
+	req := fmt.Sprintf("%s %s HTTP/1.1\r\nHost: localhost:%d\r\nConnection: close\r\nOrigin: http://example.com\r\n%s\r\n", method, target, port, rangeHdr)
 	if abort == 1 {
 		conn.Write([]byte(req[:len(req)/2]))
 		return "aborted"
@@ -105,8 +110,8 @@ func httpOnce(port int, method, target string, abort int) string {
 	}
 	var r api.BuildResult
 	r.OutputFiles = []api.OutputFile{{Path: "x", Contents: body}}
-	return fmt.Sprintf("status=%d len=%d clen=%s fnv=%016x versions=%s loc=%s", resp.StatusCode, len(body), resp.Header.Get("Content-Length"),
-		fnv64(string(body)), observedVersions(&r), resp.Header.Get("Location"))
+	return fmt.Sprintf("status=%d len=%d clen=%s fnv=%016x versions=%s loc=%s crange=%s", resp.StatusCode, len(body), resp.Header.Get("Content-Length"),
+		fnv64(string(body)), observedVersions(&r), resp.Header.Get("Location"), strings.ReplaceAll(resp.Header.Get("Content-Range"), " ", "_"))
 }
 
 // streamOnce opens the event stream, logs every event and drops the connection after dur.
@@ -214,6 +219,12 @@ func scenarioC20Serve(rc *RunCtx) *Violation {
 		servedir = dirOf(absOutdir)
 		prefix = absOutdir[len(servedir)+1:] + "/"
 	}
+	fallback := ""
+	if servedirMode != 0 && g.n(2) == 0 {
+		p.Extra["fallback.html"] = "<p>FALLBACK PAGE</p>\n"
+		fallback = p.Root + "/fallback.html"
+		d.PutFile(fallback, []byte(p.Extra["fallback.html"]), false)
+	}
 	nOccupied := g.n(3)
 	port := 8000 + nOccupied
 	var srcTargets []string // files in the serve directory that are module sources
@@ -267,7 +278,18 @@ func scenarioC20Serve(rc *RunCtx) *Violation {
 					op.Kind = "get"
 				}
 			}
+			if op.Kind == "get" && g.n(6) == 0 {
+				// let the reuse window of the last build pass, edit, and fetch at once: the
+				// response must already reflect the edit (also when a watcher is running,
+				// which would notice the edit only at its next poll)
+				op.Kind = "freshget"
+			}
 			switch op.Kind {
+			case "freshget":
+				op.Target = "/"
+				if len(outRel) > 0 {
+					op.Target = "/" + prefix + outRel[0]
+				}
 			case "sleep":
 				op.Dur = sleepChoices[g.n(len(sleepChoices))]
 			case "stream":
@@ -280,11 +302,18 @@ func scenarioC20Serve(rc *RunCtx) *Violation {
 				if g.n(6) == 0 {
 					op.Abort = 1 + g.n(3)
 				}
+				if g.n(5) == 0 && op.Method == "GET" {
+					a := g.n(40)
+					op.Range = [2]int{a, a + 1 + g.n(60)}
+				}
 			}
 			progs[c] = append(progs[c], op)
 			nm := op.Kind
 			if op.Kind == "get" {
 				nm = fmt.Sprintf("%s %s abort=%d", op.Method, op.Target, op.Abort)
+				if op.Range[1] > 0 {
+					nm += fmt.Sprintf(" range=%d-%d", op.Range[0], op.Range[1])
+				}
 			} else if op.Dur > 0 {
 				nm += "(" + op.Dur.String() + ")"
 			}
@@ -356,7 +385,7 @@ func scenarioC20Serve(rc *RunCtx) *Violation {
 			c := c
 			fs = append(fs, func() {
 				for i, op := range progs[c] {
-					verifsim.LogEvent("call<", c, i, op.Kind, op.Method+" "+op.Target)
+					verifsim.LogEvent("call<", c, i, op.Kind, fmt.Sprintf("%s %s %d-%d", op.Method, op.Target, op.Range[0], op.Range[1]))
 					res := ""
 					switch op.Kind {
 					case "rebuild":
@@ -391,7 +420,7 @@ func scenarioC20Serve(rc *RunCtx) *Violation {
 						d.PutFile(p.Root+"/"+m.Path, []byte(p.RenderModule(m)), false)
 						verifsim.LogEvent("edit>", m.ID, m.Version, "", "")
 					case "serve":
-						sr, err := ctx.Serve(api.ServeOptions{Host: "127.0.0.1", Servedir: servedir,
+						sr, err := ctx.Serve(api.ServeOptions{Host: "127.0.0.1", Servedir: servedir, Fallback: fallback,
 							CORS: api.CORSOptions{Origin: []string{"http://*.com"}},
 							OnRequest: func(a api.ServeOnRequestArgs) {
 								verifsim.LogEvent("onreq", a.Status, a.TimeInMS, a.Method+" "+a.Path, "")
@@ -401,8 +430,20 @@ func scenarioC20Serve(rc *RunCtx) *Violation {
 						} else {
 							res = fmt.Sprintf("port=%d", sr.Port)
 						}
+					case "freshget":
+						verifsim.Sleep(700 * time.Millisecond)
+						if c == 0 && len(p.Mods) > 0 && isJS(p.Mods[0].Kind) {
+							m := p.Mods[0]
+							m.Version++
+							verifsim.LogEvent("edit<", m.ID, m.Version, "", "")
+							d.PutFile(p.Root+"/"+m.Path, []byte(p.RenderModule(m)), false)
+							verifsim.LogEvent("edit>", m.ID, m.Version, "", "")
+						}
+						verifsim.LogEvent("call<", c, 1000+i, "get", fmt.Sprintf("GET %s 0-0", op.Target))
+						res = httpOnce(port, "GET", op.Target, 0)
+						verifsim.LogEvent("call>", c, 1000+i, "get", res)
 					case "get":
-						res = httpOnce(port, op.Method, op.Target, op.Abort)
+						res = httpOnce(port, op.Method, op.Target, op.Abort, op.Range[0], op.Range[1])
 					case "stream":
 						res = streamOnce(port, c, i, op.Dur)
 					}
@@ -434,20 +475,21 @@ func scenarioC20Serve(rc *RunCtx) *Violation {
 		rc.Probe("serve_port_in_use_skipped")
 	}
 	ev := s.Events()
-	sc := &serveCheck{rc: rc, ev: ev, p: p, port: port, prefix: prefix, outRel: outRel, srcMod: srcMod, outdirName: opts.Outdir}
+	sc := &serveCheck{rc: rc, ev: ev, p: p, port: port, prefix: prefix, outRel: outRel, srcMod: srcMod, outdirName: opts.Outdir, hasFallback: fallback != ""}
 	extra := &c20Extra{TimeEndExt: true, Check: sc.check, Reads: sc.fileReads()}
 	return checkC20History(rc, ev, d.TakeLog(), zeroDigest, progDesc, opts.Write, extra)
 }
 
 type serveCheck struct {
-	rc         *RunCtx
-	ev         []verifsim.Event
-	p          *Project
-	port       int
-	prefix     string
-	outRel     []string
-	srcMod     map[string]*Module
-	outdirName string // the output directory relative to the project root
+	rc          *RunCtx
+	ev          []verifsim.Event
+	p           *Project
+	port        int
+	prefix      string
+	outRel      []string
+	srcMod      map[string]*Module
+	outdirName  string // the output directory relative to the project root
+	hasFallback bool
 }
 
 type httpReq struct {
@@ -459,6 +501,7 @@ type httpReq struct {
 	invAt          int64
 	res            string
 	status         int
+	rangeA, rangeB int
 }
 
 func (sc *serveCheck) requests() []*httpReq {
@@ -468,10 +511,13 @@ func (sc *serveCheck) requests() []*httpReq {
 		switch e.Kind {
 		case "call<":
 			if e.S == "get" || e.S == "stream" {
-				mt := strings.SplitN(e.T, " ", 2)
+				mt := strings.SplitN(e.T, " ", 3)
 				r := &httpReq{client: e.A, idx: e.B, kind: e.S, method: mt[0], inv: e.N, invAt: e.At, ret: -1}
 				if len(mt) > 1 {
 					r.target = mt[1]
+				}
+				if len(mt) > 2 {
+					fmt.Sscanf(mt[2], "%d-%d", &r.rangeA, &r.rangeB)
 				}
 				if e.S == "stream" {
 					r.method, r.target = "GET", "/esbuild"
@@ -555,6 +601,20 @@ func (sc *serveCheck) check(builds []*c20Build, viol func(class, f string, a ...
 			}
 		}
 	}
+	contents := make([]map[string]string, len(builds))
+	for _, e := range ev {
+		if e.Kind != "content" {
+			continue
+		}
+		for i, b := range builds {
+			if e.N > b.first && (e.N < b.last || !b.complete) {
+				if contents[i] == nil {
+					contents[i] = map[string]string{}
+				}
+				contents[i][e.S] = e.T
+			}
+		}
+	}
 	ok := func(i int) bool { return bf[i].known && bf[i].errors == 0 && !builds[i].endFailed }
 	serveRet, serveInv := -1, -1
 	firstDisposeInv, firstDisposeRet := -1, -1
@@ -620,6 +680,13 @@ func (sc *serveCheck) check(builds []*c20Build, viol func(class, f string, a ...
 			}
 		}
 		if rel == "" {
+			// a path that names nothing is answered with the fallback page when there is one
+			if sc.hasFallback && strings.HasSuffix(r.target, "no-such-file.js") && r.status == 200 && r.method == "GET" && r.rangeB == 0 {
+				if field(r.res, "fnv") != fmt.Sprintf("%016x", fnv64("<p>FALLBACK PAGE</p>\n")) {
+					return viol("http-fallback-wrong-body", "GET %s was answered with 200 but not with the fallback page: %s", r.target, r.res)
+				}
+				rc.Probe("http_fallback_page_served")
+			}
 			continue
 		}
 		key := stripRoot(sc.p.Root+"/"+sc.outdir()+"/"+rel, sc.p.Root)
@@ -630,9 +697,36 @@ func (sc *serveCheck) check(builds []*c20Build, viol func(class, f string, a ...
 			}
 		}
 		disposed := firstDisposeInv >= 0 && firstDisposeInv < r.ret
-		switch r.status {
+		status := r.status
+		if status == 200 && sc.hasFallback && r.rangeB == 0 && field(r.res, "fnv") == fmt.Sprintf("%016x", fnv64("<p>FALLBACK PAGE</p>\n")) {
+			status = 404 // the fallback page stands in for "not found"
+			rc.Probe("http_fallback_instead_of_output")
+		}
+		switch status {
+		case 206:
+			// a byte range of one current build's file
+			found := false
+			for _, i := range acceptable {
+				if c, has := contents[i][key]; ok(i) && has && r.rangeA < len(c) {
+					end := r.rangeB + 1
+					if end > len(c) {
+						end = len(c)
+					}
+					if field(r.res, "fnv") == fmt.Sprintf("%016x", fnv64(c[r.rangeA:end])) && field(r.res, "crange") == fmt.Sprintf("bytes_%d-%d/%d", r.rangeA, end-1, len(c)) {
+						found = true
+					}
+				}
+			}
+			if !found {
+				return viol("http-range-response-wrong", "GET %s with Range %d-%d (events %d..%d) returned 206 with a body or Content-Range that is not that range of the file in any current build: %s", r.target, r.rangeA, r.rangeB, r.inv, r.ret, r.res)
+			}
+			rc.Probe("http_206_matches_a_current_build")
 		case 200:
 			want := field(r.res, "fnv")
+			if r.rangeB > 0 {
+				rc.Probe("http_range_ignored_or_unsatisfiable")
+				continue
+			}
 			if r.method == "HEAD" {
 				rc.Probe("http_head")
 				continue
